@@ -83,6 +83,9 @@ def symkey(j):
 
 # ----------------------------------------------------------------------------- weights
 def semiring(name):
+    if name == "Lang":
+        from harness.langsemi import Lang
+        return Lang
     from genlm.grammar import semiring as S
     return getattr(S, name)
 
@@ -96,6 +99,8 @@ def mk_w(s, R, exact=False):
     """weight descriptor (string 'n/d', bool, or [p, r]) -> value of semiring R (by name)."""
     if R == "Boolean":
         return semiring(R)(bool(s))
+    if R == "Lang":
+        return semiring(R)(s)
     if R in ("Expectation", "Entropy"):
         p, r = s
         return semiring(R)(float(Fraction(p)), float(Fraction(r)))
@@ -110,6 +115,8 @@ def enc_w(w, R):
     """value of semiring R -> JSON weight for the driver (exact)."""
     if R == "Boolean":
         return bool(w.score)
+    if R == "Lang":
+        return sorted(w.score)
     if R in ("Expectation", "Entropy"):
         return [frac_str(w.score[0]), frac_str(w.score[1])]
     v = w if R == "Float" else w.score
